@@ -1,15 +1,20 @@
 #!/bin/bash
-# tools/mutant.sh '<file relative to /repo>' '<sed expression>' C01 C07 ...   (quick tier)
-# Applies one mutation to /repo's working tree, runs the listed checks, and always reverts.
-# Only for sensitivity experiments; never leaves /repo modified.
+# tools/mutant.sh '<file relative to the repo>' '<sed expression>' C01 C07 ...   (quick tier)
+# Applies one mutation in the scratch sandbox /tmp/sb (never in /repo), runs the listed checks
+# there, and reverts. Also: tools/mutant.sh --patch <file.diff> C01 ...
 set -u
-file="$1"; expr="$2"; shift 2
-cd /repo || exit 2
-if ! git diff --quiet; then echo "refusing: /repo has uncommitted changes"; exit 2; fi
-trap 'git -C /repo checkout -- . ' EXIT
-sed -i -E "$expr" "$file"
+SB=/tmp/sb
+/verif/tools/sandbox.sh >/dev/null || exit 2
+trap 'git -C $SB/repo checkout -- . ' EXIT
+cd $SB/repo || exit 2
+if [ "$1" = "--patch" ]; then
+  git apply "$2" || exit 3; shift 2
+else
+  file="$1"; expr="$2"; shift 2
+  sed -i -E "$expr" "$file"
+fi
 if git diff --quiet; then echo "MUTATION DID NOT APPLY"; exit 3; fi
-git --no-pager diff -U0 | grep '^[+-]' | grep -v '^+++\|^---'
+git --no-pager diff -U0 | grep '^[+-]' | grep -v '^+++\|^---' | head -12
 for p in "$@"; do
-  VERIF_SEED=${VERIF_SEED:-0} /verif/check "$p" ${TIER:-quick} 2>&1 | grep -E "VIOLATION|INCONCLUSIVE|signature| -> |expected" | head -6
+  VERIF_SEED=${VERIF_SEED:-0} $SB/verif/check "$p" ${TIER:-quick} 2>&1 | grep -E "VIOLATION|INCONCLUSIVE|signature| -> |expected" | head -6
 done
